@@ -68,11 +68,16 @@ def strip_vers_wrap(canon):
     for k, x in canon:
         if k == "Version" and not isinstance(x, str):
             x = [i for i in x if i[1] not in ("VERS", "WRAP")]
+        if not isinstance(x, str):
+            # session mnemonics are a function of the list of original mnemonics (C13): compared through the originals
+            x = [[i[0], i[2], i[3], i[4]] for i in x]
         out.append([k, x])
     return out
 
 
 KNOWN_DESCR_SPEC = {"version": [], "well": [["LOC", "", ["s", "A"], "location: site"]], "params": [],
+                    "curves": [["DEPT", "M", ["s", ""], "", [(1.0).hex(), (2.0).hex(), (3.0).hex()]]], "other": ""}
+KNOWN_BLANK_SPEC = {"version": [], "well": [["", "", ["s", "x"], "a.b"]], "params": [],
                     "curves": [["DEPT", "M", ["s", ""], "", [(1.0).hex(), (2.0).hex(), (3.0).hex()]]], "other": ""}
 KNOWN_DLM_SPEC = {"version": [], "version_edit": {"DLM": ["", ["s", "COMMA"], "Column Data Section Delimiter"]}, "well": [], "params": [],
                   "curves": [["DEPT", "M", ["s", ""], "", [(1.0).hex(), (2.0).hex(), (3.0).hex()]],
@@ -97,6 +102,9 @@ def classify(failure):
         return "well-colon-value-1.2"
     if failure["clause"] == "version-swap" and d.get("section") == "Well" and ":" in (d.get("orig_descr") or ""):
         return "well-colon-descr-2.0"
+    if failure["clause"] == "version-swap" and d.get("section") == "Well" and d.get("orig_mnemonic") is not None and d["orig_mnemonic"].strip() == "" \
+            and "." in (d.get("orig_unit") or "") + (d.get("orig_value") or "") + (d.get("orig_descr") or ""):
+        return "well-blank-mnemonic-period"
     return None
 
 
@@ -143,7 +151,9 @@ def compare(run, make, a, b, case, origs, numeric=True):
                 ov = origs.get(k)
                 run.fail(clause, case, {"section": k, "index": i, "a": p, "b": q,
                                         "orig_value": ov[i][0] if ov and len(ov) == len(xa) else None,
-                                        "orig_descr": ov[i][1] if ov and len(ov) == len(xa) else None})
+                                        "orig_descr": ov[i][1] if ov and len(ov) == len(xa) else None,
+                                        "orig_mnemonic": ov[i][2] if ov and len(ov) == len(xa) else None,
+                                        "orig_unit": ov[i][3] if ov and len(ov) == len(xa) else None})
     if numeric and lo.canon_data(ra) != lo.canon_data(rb):
         run.fail("data-" + clause, case, {"a": lo.canon_data(ra)[:3], "b": lo.canon_data(rb)[:3]})
     return ta, tb
@@ -156,7 +166,7 @@ def orig_values(las):
         items = lo.section_items(las, k)
         if k == "Version":
             items = [i for i in items if i.mnemonic not in ("VERS", "WRAP")]
-        out[k] = [[str(i.value), str(i.descr)] for i in items]
+        out[k] = [[str(i.value), str(i.descr), i.original_mnemonic, str(i.unit)] for i in items]
     return out
 
 
@@ -180,7 +190,7 @@ def flush(run, pend):
     if run.model is None or not pend:
         pend.clear()
         return
-    ans = lo.ask(run.model, [p[1] for p in pend])
+    ans = run.model.ask([p[1] for p in pend])
     for (case, req, text, dsh), m in zip(pend, ans):
         run.traces += 1
         ok = isinstance(m, dict) and "lines" in m
@@ -223,6 +233,8 @@ def run(run):
     run_spec(run, KNOWN_SPEC, dict(base, version=1.2), dict(base, version=2), "known-input", pend)
     # mirror image of the known finding (reported): a ~Well DESCRIPTION containing ':' written as 2.0
     run_spec(run, KNOWN_DESCR_SPEC, dict(base, version=1.2), dict(base, version=2), "colon-descr-input", pend)
+    # blank mnemonic with a further period on the line (reported): `.  a.b : x` (1.2) reads as mnemonic 'a', unit 'b'
+    run_spec(run, KNOWN_BLANK_SPEC, dict(base, version=1.2), dict(base, version=2), "blank-period-input", pend)
     # genuine defect found by this check (reported): ~Version DLM other than SPACE is written as it is while the data is
     # blank-separated; the wrapped output is then split at the declared delimiter
     run_spec(run, KNOWN_DLM_SPEC, dict(base, version=2, wrap=False), dict(base, version=2, wrap=True), "dlm-input", pend)
@@ -236,6 +248,8 @@ def run(run):
             k = run.rng.choice(["version", "well", "params"])
             spec[k] = spec[k] + [[lo.gen_mnemonic(run.rng, lo.AVOID["Version"] + lo.AVOID["Well"]), lo.gen_unit(run.rng),
                                   lo.gen_value(run.rng), run.rng.choice(["location: site", "a :b", "hh:mm"])]]
+        if i % 20 == 7:
+            spec["well"] = spec["well"] + [["", lo.gen_unit(run.rng), ["s", run.rng.choice(["x", "1.5"])], run.rng.choice(["a.b", "d"])]]
         a, b = gen_pair(run.rng)
         run_spec(run, spec, a, b, "generated", pend)
         if len(pend) >= 512:
